@@ -118,10 +118,20 @@ class ScriptedSocket(socket.socket):
             self.events.pop(0)
             self.log.append((n, "timeout"))
             raise TimeoutError("scripted timeout")
-        if ev == "oserror":
+        if isinstance(ev, str) and ev.startswith("oserror"):
+            # "oserror" or "oserror:<subclass>": any OSError subclass is a legitimate failure of recv()
             self.events.pop(0)
             self.log.append((n, "oserror"))
-            raise OSError("scripted OS error")
+            kind = ev.partition(":")[2]
+            exc = {
+                "connreset": ConnectionResetError,
+                "connaborted": ConnectionAbortedError,
+                "brokenpipe": BrokenPipeError,
+                "blocking": BlockingIOError,
+                "interrupted": InterruptedError,
+                "connrefused": ConnectionRefusedError,
+            }.get(kind, OSError)
+            raise exc(104, f"scripted {exc.__name__}")
         out = bytes(ev[:n])
         rest = ev[n:]
         if rest:
